@@ -59,9 +59,18 @@ func gen(r *harn.Rng, tier string) interface{} {
 		if r.Bool(0.15) {
 			nArr = r.Range(20, 45) // a backlog longer than a small ring
 		}
+		flood := false
+		if r.Bool(0.05) {
+			nArr = r.Pick(65, 129, 130, 200, 300) // a backlog longer than any per-pass batch, then silence
+			flood = true
+		}
 		for i, n := 0, nArr; i < n; i++ {
 			var gap int64
-			switch r.Intn(6) {
+			k := r.Intn(6)
+			if flood && i > 0 {
+				k = 0
+			}
+			switch k {
 			case 0, 1:
 				gap = 0 // burst
 			case 2:
